@@ -53,10 +53,40 @@ func (g *G) Wide() *DNode {
 	return a
 }
 
+// Deep draws a spine nested 24..70 levels (objects and arrays alternating irregularly), with a
+// few scalar members beside the spine: far deeper than the usual five levels, at sizes where a
+// traversal's explicit stack or a recursion has to grow.
+func (g *G) Deep() *DNode {
+	n := 24 + g.intn("deeplevels", 47)
+	cur := g.Leaf()
+	for i := 0; i < n; i++ {
+		if g.chance("deepobj", 60) {
+			o := Obj()
+			if g.chance("deepsib", 30) {
+				o.Set(g.key(), g.Leaf())
+			}
+			o.Set(g.key(), cur)
+			cur = o
+		} else {
+			a := Arr()
+			if g.chance("deepsib", 30) {
+				a.Kids = append(a.Kids, g.Leaf())
+			}
+			a.Kids = append(a.Kids, cur)
+			cur = a
+		}
+	}
+	return cur
+}
+
 // FreeDoc draws an arbitrary JSON value nested at most depth levels.
 func (g *G) FreeDoc(depth int) *DNode {
 	if depth > 0 && g.chance("wide", 2) {
 		return g.Wide()
+	}
+	if depth >= 2 && !g.deepUsed && g.chance("deep", 1) {
+		g.deepUsed = true // at most one deep spine per case
+		return g.Deep()
 	}
 	if depth <= 0 || g.chance("freeleaf", 30) {
 		return g.Leaf()
@@ -112,7 +142,12 @@ func Merge(a, b *DNode) *DNode {
 type docBuilder struct {
 	g      *G
 	atRoot *DNode // witnesses for "$"-rooted operands, merged into the root at the end
+	built  int    // witness calls so far: the construction is exponential in the path length unless bounded
 }
+
+// maxWitnessCalls bounds the witness construction (the document is trimmed to MaxDocNodes
+// afterwards anyway); beyond it a branch ends in a leaf.
+const maxWitnessCalls = 600
 
 // DocFor draws a document on which p is likely (not certain) to select something:
 // a witness is constructed step by step, then perturbed with probability ~0.3.
@@ -157,7 +192,8 @@ func (g *G) siblings(o *DNode, leaf func() *DNode) {
 // witness builds a value on which steps are likely to select something ending in leaf().
 func (b *docBuilder) witness(steps []Step, leaf func() *DNode) *DNode {
 	g := b.g
-	if len(steps) == 0 {
+	b.built++
+	if len(steps) == 0 || b.built > maxWitnessCalls {
 		return leaf()
 	}
 	s := &steps[0]
